@@ -45,8 +45,23 @@ func runC01(c *Ctx) {
 		n /= 4
 	}
 
-	c.Cases(n, func(idx int64, r *Rng) {
-		sc := genStepCase(idx, r, c.Thorough(), false)
+	// strata: the boundary grid (walked completely), large cores, then the random cases
+	nLarge := int64(1200)
+	if c.Thorough() {
+		nLarge = 40000
+	}
+	c.Cases(gridSize+nLarge+n, func(idx int64, r *Rng) {
+		var sc *StepCase
+		switch {
+		case idx < gridSize:
+			sc = genGridCase(idx, r)
+			c.Inc("grid_cases")
+		case idx < gridSize+nLarge:
+			sc = genLargeCase(r)
+			c.Inc("large_core_cases")
+		default:
+			sc = genStepCase(idx-gridSize-nLarge, r, c.Thorough(), false)
+		}
 		m := sc.M
 		var s g.Simulator
 		var w g.Warrior
